@@ -14,6 +14,10 @@ struct zstd_verif_ghost_s {
     void*    memmove_last_dst;   /* last memmove seen by stubs/mem_sampled.c */
     size_t   memmove_last_len;
     unsigned memmove_calls;
+    unsigned long long xxh_last_digest;   /* value returned by the last XXH64_digest stub call */
+    unsigned long long xxh_bytes;         /* bytes fed to XXH64_update since the last XXH64_reset */
+    const void* range_start;              /* a range returned by a callee that was replaced by its contract */
+    size_t range_size;
 };
 extern struct zstd_verif_ghost_s zstd_verif_ghost;
 #define ZSTD_VERIF_GHOST_FRAME __CPROVER_object_whole(&zstd_verif_ghost)
